@@ -54,3 +54,221 @@ Lemma R_oksL v l sq : Forall2 (R v) l sq -> oksL l = true.
 Proof.
   induction 1 as [|e p l sq [H1 [H2 _]] _ IH]; [reflexivity|]. cbn. rewrite H1, H2, IH. reflexivity.
 Qed.
+
+(* ---------- the domain of the theorem ---------- *)
+(* raw SQL that gorm parenthesises, or that is a single factor anyway *)
+Definition detectable (tbl : atom_table) (tmpl txt : string) : bool :=
+  match lex tbl txt with
+  | Some ts => match parse ts with
+               | Some e => wrap_test tmpl || is_singleF e
+               | None => false
+               end
+  | None => false
+  end.
+
+Definition flat (tbl : atom_table) (u : unit_) : bool :=
+  match u with
+  | URaw tmpl txt => String.eqb tmpl "" || detectable tbl tmpl txt
+  | UNamed tmpl txt => detectable tbl tmpl txt
+  | UMap _ | UStruct _ => true
+  | UExpr (CAtom _ _) => true
+  | _ => false
+  end.
+
+(* groups of Where/Or calls over domain units, Not only over flat units *)
+Fixpoint dom (tbl : atom_table) (u : unit_) : bool :=
+  match u with
+  | UGroup cs =>
+    (fix go (l : list (ckind * unit_)) : bool :=
+       match l with
+       | [] => true
+       | (k, u') :: r => dom tbl u' && (match k with KNot => flat tbl u' | _ => true end) && go r
+       end) cs
+  | _ => flat tbl u
+  end.
+Fixpoint calls_dom (tbl : atom_table) (cs : list call) : bool :=
+  match cs with
+  | [] => true
+  | (k, u) :: r => dom tbl u && (match k with KNot => flat tbl u | _ => true end) && calls_dom tbl r
+  end.
+Lemma dom_group tbl cs : dom tbl (UGroup cs) = calls_dom tbl cs.
+Proof. induction cs as [|[k u] r IH]; [reflexivity|]. cbn [calls_dom]. rewrite <- IH. reflexivity. Qed.
+
+(* negated atoms mean the Kleene negation of their atom *)
+Definition neg_pairs_ok (v : nat -> tv) (ms : list (nat * nat)) : Prop :=
+  forall p, In p ms -> v (snd p) = tv_not (v (fst p)).
+Fixpoint unit_pairs (u : unit_) : list (nat * nat) :=
+  match u with
+  | UMap ms | UStruct ms => ms
+  | UExpr (CAtom a na) => [(a, na)]
+  | UGroup cs => (fix go (l : list (ckind * unit_)) : list (nat * nat) :=
+                    match l with [] => [] | (_, u') :: r => unit_pairs u' ++ go r end) cs
+  | _ => []
+  end.
+Fixpoint calls_pairs (cs : list call) : list (nat * nat) :=
+  match cs with [] => [] | (_, u) :: r => unit_pairs u ++ calls_pairs r end.
+Lemma unit_pairs_group cs : unit_pairs (UGroup cs) = calls_pairs cs.
+Proof. induction cs as [|[k u] r IH]; [reflexivity|]. cbn [calls_pairs]. rewrite <- IH. reflexivity. Qed.
+
+(* ---------- expressions built from atoms ---------- *)
+Definition atoms_of (ms : list (nat * nat)) : list expr := map (fun p => XAtom (fst p) (snd p)) ms.
+
+Lemma closed_atom a na : closedx (XAtom a na) = true.
+Proof. reflexivity. Qed.
+Lemma oksL_atoms ms : oksL (atoms_of ms) = true.
+Proof. induction ms as [|p r IH]; [reflexivity|]. cbn. exact IH. Qed.
+Lemma no_or_atoms ms : existsb is_single_or (atoms_of ms) = false.
+Proof. induction ms as [|p r IH]; [reflexivity|]. cbn. exact IH. Qed.
+Lemma all_atoms ms : ms <> [] -> existsb is_atom (atoms_of ms) = true.
+Proof. destruct ms; [congruence|reflexivity]. Qed.
+
+Lemma val_list_atoms v : forall ms, ms <> [] ->
+  val_list v (atoms_of ms) = sev v (SAnd (map (fun p => SAtom (fst p)) ms)).
+Proof.
+  intros ms Hne. destruct ms as [|p r]; [congruence|]. cbn [atoms_of map val_list].
+  rewrite pe_no_or.
+  2:{ clear. induction r as [|x r IH]; [reflexivity|]. cbn. exact IH. }
+  rewrite dx_atom. cbn [sev map]. generalize (v (fst p)). clear Hne p.
+  induction r as [|x r IH]; intros acc; cbn [map fold_left fold_right snd sev].
+  - rewrite tv_and_TT_r. reflexivity.
+  - rewrite IH, dx_atom. cbn [fold_right]. rewrite tv_and_assoc. reflexivity.
+Qed.
+
+(* every member negated on its own: (na1 AND na2 ...) *)
+Lemma evT_negs_atoms v : forall ms, neg_pairs_ok v ms ->
+  evT v (negsT (atoms_of ms)) = sev v (SAnd (map (fun p => SNot (SAtom (fst p))) ms)).
+Proof.
+  induction ms as [|p r IH]; intros Hn; [reflexivity|].
+  cbn [atoms_of map negsT]. rewrite evT_cons. cbn [evF sev map fold_right].
+  rewrite (Hn p (or_introl eq_refl)). f_equal.
+  apply IH. intros q Hq. apply Hn. right. exact Hq.
+Qed.
+
+(* ---------- parse trees and their [sem] ---------- *)
+Section FexpInd.
+  Variable P : fexp -> Prop.
+  Hypothesis Hatom : forall a, P (FAtom a).
+  Hypothesis Hnot : forall f, P f -> P (FNot f).
+  Hypothesis Hpar : forall e, Forall (Forall P) e -> P (FPar e).
+  Fixpoint fexp_ind' (f : fexp) : P f :=
+    match f with
+    | FAtom a => Hatom a
+    | FNot g => Hnot g (fexp_ind' g)
+    | FPar e =>
+      Hpar e ((fix goE (e : list (list fexp)) : Forall (Forall P) e :=
+                 match e with
+                 | [] => Forall_nil _
+                 | t :: r => Forall_cons t ((fix goT (t : list fexp) : Forall P t :=
+                                               match t with
+                                               | [] => Forall_nil _
+                                               | f :: r' => Forall_cons f (fexp_ind' f) (goT r')
+                                               end) t) (goE r)
+                 end) e)
+    end.
+End FexpInd.
+
+Lemma evF_sem v : forall f, evF v f = sev v (sem_of_F f).
+Proof.
+  induction f as [a|g IH|e IH] using fexp_ind'; [reflexivity|cbn; rewrite IH; reflexivity|].
+  cbn [evF sem_of_F sev]. rewrite map_map. f_equal.
+  induction IH as [|t r Ht _ IHr]; [reflexivity|]. cbn [map]. rewrite IHr. f_equal.
+  cbn [sev]. rewrite map_map. f_equal.
+  induction Ht as [|f r' Hf _ IHt]; [reflexivity|]. cbn [map]. rewrite Hf, IHt. reflexivity.
+Qed.
+Lemma evE_sem v e : evE v e = sev v (sem_of_E e).
+Proof.
+  unfold evE, sem_of_E. cbn [sev]. rewrite map_map. f_equal.
+  induction e as [|t r IH]; [reflexivity|]. cbn [map]. rewrite IH. f_equal.
+  unfold evT. cbn [sev]. rewrite map_map. f_equal.
+  induction t as [|f r' IHt]; [reflexivity|]. cbn [map]. rewrite evF_sem, IHt. reflexivity.
+Qed.
+
+(* ---------- flat units ---------- *)
+Definition unit_result (v : nat -> tv) (conds : list expr) (mm : option (sem * sem)) : Prop :=
+  (conds = [] /\ mm = None) \/
+  exists e m n nx, conds = [e] /\ mm = Some (m, n) /\
+    okx e = true /\ closedx e = true /\ is_or e = false /\ dx v e = sev v m /\
+    mk_not [e] = Some nx /\
+    okx nx = true /\ closedx nx = true /\ is_or nx = false /\ dx v nx = sev v n.
+
+Lemma not_single_raw v e : okx e = true -> closedx e = true -> existsb is_atom [e] = false ->
+  okx (XNot [e]) = true /\ closedx (XNot [e]) = true /\ dx v (XNot [e]) = tv_not (dx v e).
+Proof.
+  intros Hok Hc Ha. rewrite okx_not. cbn [oksL]. rewrite Hok, Hc. split; [reflexivity|].
+  unfold closedx, dx. rewrite toE_not. cbn [tl existsb] in *. rewrite Ha. cbn [andb].
+  split; [apply orb_true_r|]. rewrite evE_single, evT_single. cbn [evF]. rewrite evF_item by exact Hc. reflexivity.
+Qed.
+
+Lemma raw_unit_result v tbl (mk : bool -> list tok -> expr) tmpl txt :
+  (mk = XRaw \/ mk = XNamed) -> detectable tbl tmpl txt = true ->
+  forall ts et, lex tbl txt = Some ts -> parse ts = Some et ->
+  unit_result v [mk (wrap_test tmpl) ts] (Some (sem_of_E et, SNot (sem_of_E et))).
+Proof.
+  intros Hmk Hd ts et Hl Hp. unfold detectable in Hd. rewrite Hl, Hp in Hd.
+  set (e := mk (wrap_test tmpl) ts).
+  assert (Hok : okx e = true) by (destruct Hmk; subst mk; cbn; rewrite Hp; reflexivity).
+  assert (HtoE : toE e = et) by (destruct Hmk; subst mk; cbn; unfold raw_tree; rewrite Hp; reflexivity).
+  assert (Hw : wrap_of e = wrap_test tmpl) by (destruct Hmk; subst mk; reflexivity).
+  assert (Hc : closedx e = true) by (unfold closedx; rewrite Hw, HtoE; exact Hd).
+  assert (Hnor : is_or e = false) by (destruct Hmk; subst mk; reflexivity).
+  assert (Hna : existsb is_atom [e] = false) by (destruct Hmk; subst mk; reflexivity).
+  assert (Hmn : mk_not [e] = Some (XNot [e])) by (destruct Hmk; subst mk; reflexivity).
+  destruct (not_single_raw v e Hok Hc Hna) as [H1 [H2 H3]].
+  right. exists e, (sem_of_E et), (SNot (sem_of_E et)), (XNot [e]).
+  repeat split; try assumption; try reflexivity.
+  - unfold dx. rewrite HtoE. apply evE_sem.
+  - rewrite H3. unfold dx. rewrite HtoE, evE_sem. reflexivity.
+Qed.
+
+Lemma atoms_unit_result v ms : neg_pairs_ok v ms ->
+  unit_result v (olist (mk_and (atoms_of ms)))
+    (match ms with
+     | [] => None
+     | [p] => Some (SAtom (fst p), SNot (SAtom (fst p)))
+     | _ => Some (SAnd (map (fun p => SAtom (fst p)) ms), SAnd (map (fun p => SNot (SAtom (fst p))) ms))
+     end).
+Proof.
+  intros Hn. destruct ms as [|p [|q r]].
+  - left. split; reflexivity.
+  - right. cbn [atoms_of map mk_and is_or olist]. exists (XAtom (fst p) (snd p)), (SAtom (fst p)), (SNot (SAtom (fst p))), (XNot [XAtom (fst p) (snd p)]).
+    repeat split; try reflexivity.
+    + apply dx_atom.
+    + unfold dx. rewrite toE_not. cbn. rewrite (Hn p (or_introl eq_refl)). destruct (v (fst p)); reflexivity.
+  - right. set (ms := p :: q :: r) in *. set (l := atoms_of ms).
+    assert (Hl2 : gt1 l = true) by reflexivity.
+    exists (XAnd l), (SAnd (map (fun p => SAtom (fst p)) ms)), (SAnd (map (fun p => SNot (SAtom (fst p))) ms)), (XNot l).
+    assert (Hoks : oksL l = true) by apply oksL_atoms.
+    assert (Hat : existsb is_atom l = true) by reflexivity.
+    assert (Hnoor : existsb is_single_or (tl l) = false) by apply (no_or_atoms (q :: r)).
+    repeat split; try reflexivity.
+    + rewrite okx_and. exact Hoks.
+    + rewrite dx_and by assumption. apply val_list_atoms. discriminate.
+    + rewrite okx_not. exact Hoks.
+    + unfold closedx. rewrite toE_not, Hat, Hnoor, Hl2. apply orb_true_r.
+    + unfold dx. rewrite toE_not, Hat, Hnoor, Hl2.
+      cbn [andb negb]. rewrite evE_single, evT_single, evF_par, evE_single.
+      apply evT_negs_atoms. exact Hn.
+Qed.
+
+Lemma flat_unit v tbl u conds mm :
+  flat tbl u = true -> neg_pairs_ok v (unit_pairs u) ->
+  build_cond tbl u = Some conds -> umean tbl u = Some mm -> unit_result v conds mm.
+Proof.
+  intros Hf Hn Hb Hm. destruct u as [tmpl txt|tmpl txt|ms|ms|c|cs]; cbn [flat] in Hf; try discriminate.
+  - cbn in Hb, Hm. destruct (String.eqb tmpl "") eqn:Ee.
+    + inversion Hb; inversion Hm; subst. left. tauto.
+    + cbn in Hf. pose proof Hf as Hd. unfold detectable in Hd.
+      destruct (lex tbl txt) as [ts|] eqn:El; [|discriminate].
+      destruct (parse ts) as [et|] eqn:Ep; [|discriminate].
+      inversion Hb; inversion Hm; subst. apply (raw_unit_result v tbl XRaw tmpl txt); auto.
+  - cbn in Hb, Hm. pose proof Hf as Hd. unfold detectable in Hd.
+    destruct (lex tbl txt) as [ts|] eqn:El; [|discriminate].
+    destruct (parse ts) as [et|] eqn:Ep; [|discriminate].
+    inversion Hb; inversion Hm; subst. apply (raw_unit_result v tbl XNamed tmpl txt); auto.
+  - cbn in Hb, Hm, Hn. inversion Hb; subst. pose proof (atoms_unit_result v ms Hn) as H.
+    destruct ms as [|p [|q r]]; inversion Hm; subst; exact H.
+  - cbn in Hb, Hm, Hn. inversion Hb; subst. pose proof (atoms_unit_result v ms Hn) as H.
+    destruct ms as [|p [|q r]]; inversion Hm; subst; exact H.
+  - destruct c as [a na| | | |]; try discriminate. cbn in Hb, Hm, Hn. inversion Hb; inversion Hm; subst.
+    exact (atoms_unit_result v [(a, na)] Hn).
+Qed.
